@@ -9,7 +9,7 @@ use std::{
 
 use rand::{rngs::StdRng, Rng, SeedableRng};
 use serde_json::{json, Value};
-use shred::World;
+use shred::{Dispatcher, World};
 
 use crate::{build::classify_panic, record::Recorded, sys::*};
 
@@ -68,7 +68,18 @@ pub fn setup_world(r: &mut Recorded, log_setup: bool) -> World {
         ctx.ev(json!({"ev":"setupcall","d":r.top,"phase":"end","out": if res.is_ok() {"ok"} else {"panic"}}));
     }
     // resources no system mentions in a default-providing way do not exist for
-    // harness systems: HData::setup creates all of them, so nothing to add.
+    // harness systems: HData::setup creates all of them.  The two static resources are the exception: a system
+    // that only has Option / Expect data creates nothing, the harness provides them.
+    for res in [crate::prog::CTL_A, crate::prog::CTL_B] {
+        if !r.rec.has_stat {
+            break;
+        }
+        if let Some(c) = ctx.resmap.get(&res) {
+            if !world.has_value_raw(c.rid()) {
+                c.insert(&mut world, 1000 + res);
+            }
+        }
+    }
     let mut evs = ctx.take_log();
     evs.push(world_event("world0", &ctx, &world));
     r.rec.events.append(&mut evs);
@@ -256,6 +267,22 @@ pub fn run_dispatch_forced(r: &mut Recorded, world: &World, mode: Mode, f: &Forc
     fs
 }
 
+#[cfg(feature = "parallel")]
+thread_local! {
+    static DRIVER: std::cell::RefCell<Option<Arc<rayon::ThreadPool>>> = std::cell::RefCell::new(None);
+}
+
+/// The following dispatch calls of this thread are made from a worker of `p` (None: from this thread itself).
+#[cfg(feature = "parallel")]
+pub fn set_driver_pool(p: Option<Arc<rayon::ThreadPool>>) {
+    DRIVER.with(|d| *d.borrow_mut() = p);
+}
+
+#[cfg(feature = "parallel")]
+fn driver_pool() -> Option<Arc<rayon::ThreadPool>> {
+    DRIVER.with(|d| d.borrow().clone())
+}
+
 /// One top-level dispatch call, recorded as begin .. end.
 pub fn run_dispatch(r: &mut Recorded, world: &World, opts: &ExecOpts) -> ExecStats {
     r.rec.ctx.panic_once.store(false, Ordering::Relaxed);
@@ -292,17 +319,44 @@ fn run_dispatch_with(r: &mut Recorded, world: &World, opts: &ExecOpts, forced: O
     };
     ctx.ev(json!({"ev":"begin","d":r.top,"mode":opts.mode.name(),"th":ctx.thread()}));
     let d = r.dispatcher.as_mut().unwrap();
-    let res = crate::unwind::ctx(|| {
-        catch_unwind(AssertUnwindSafe(|| match opts.mode {
-            Mode::Disp => d.dispatch(world),
-            #[cfg(feature = "parallel")]
-            Mode::Par => d.dispatch_par(world),
-            #[cfg(not(feature = "parallel"))]
-            Mode::Par => d.dispatch_seq(world),
-            Mode::Seq => d.dispatch_seq(world),
-            Mode::TlOnly => d.dispatch_thread_local(world),
-        }))
-    });
+    let mode = opts.mode;
+    let call = move |d: &mut Dispatcher<'static, 'static>| {
+        crate::unwind::ctx(|| {
+            catch_unwind(AssertUnwindSafe(|| match mode {
+                Mode::Disp => d.dispatch(world),
+                #[cfg(feature = "parallel")]
+                Mode::Par => d.dispatch_par(world),
+                #[cfg(not(feature = "parallel"))]
+                Mode::Par => d.dispatch_seq(world),
+                Mode::Seq => d.dispatch_seq(world),
+                Mode::TlOnly => d.dispatch_thread_local(world),
+            }))
+        })
+    };
+    #[cfg(feature = "parallel")]
+    let res = match driver_pool() {
+        // the dispatch call is made from a worker thread of a rayon pool (its own or a foreign one): that worker is
+        // "the calling thread" (thread-local systems run there)
+        Some(p) => {
+            struct Ptr(*mut Dispatcher<'static, 'static>);
+            // SAFETY (harness): the dispatcher is used by exactly one thread at a time - this one waits inside
+            // `install` while the worker makes the call; harness systems are `!Send` by marker only
+            unsafe impl Send for Ptr {}
+            let ptr = Ptr(d as *mut _);
+            let (c2, unw) = (ctx.clone(), crate::unwind::active());
+            p.install(move || {
+                let ptr = ptr;
+                c2.claim_caller();
+                crate::unwind::set(unw);
+                let r = call(unsafe { &mut *ptr.0 });
+                crate::unwind::set(false);
+                r
+            })
+        }
+        None => call(d),
+    };
+    #[cfg(not(feature = "parallel"))]
+    let res = call(d);
     {
         let mut g = ctx.gate.lock().unwrap();
         g.done = true;
